@@ -123,8 +123,8 @@ Definition stuck_post (lost : bool) (s : state) (p : nat) : bool :=
 (* Mode.start as it was (forward = true) with use_wait_queue, started by queue event 1, one no-op handler
    on mode_<m>_starting (event 2); the environment then releases every outstanding wait *)
 Definition shared_regs : list (Z * handler) :=
-  [(1, mkH 900 100 (HSync (mode_start_script true true 2))); (2, mkH 1 1 (HSync []))].
-Definition shared_env : list (list action) := [[APostQ 1 false]; [AClearNth 0]; [AClearNth 0]].
+  [(1, mkH 900 100 [] None None (HSync (mode_start_script true true 2))); (2, mkH 1 1 [] None None (HSync []))].
+Definition shared_env : list (list action) := [[APostQ 1 false []]; [AClearNth 0]; [AClearNth 0]].
 
 Lemma nested_shared_queue_refuted_l :
   stuck_post false (env_run false default_fuel shared_env (init_state shared_regs)) 0 = true.
@@ -133,7 +133,7 @@ Proof. vm_compute. reflexivity. Qed.
 (* the same scenario with the fixed Mode.start (forward = false) completes *)
 Lemma nested_fixed_completes_l :
   let s := env_run false default_fuel shared_env
-             (init_state [(1, mkH 900 100 (HSync (mode_start_script true false 2))); (2, mkH 1 1 (HSync []))]) in
+             (init_state [(1, mkH 900 100 [] None None (HSync (mode_start_script true false 2))); (2, mkH 1 1 [] None None (HSync []))]) in
   stuck_post false s 0 = false /\ existsb (obs_eqb (LCallback 0)) (log s) = true
   /\ existsb (obs_eqb (LCallback 1)) (log s) = true.
 Proof. vm_compute. repeat split. Qed.
@@ -141,8 +141,8 @@ Proof. vm_compute. repeat split. Qed.
 (* original _run_handlers_sequential: the only handler of event 2 is removed by a handler of event 1 between
    process_event_queue and the first step of the task of event 2 *)
 Definition removed_regs : list (Z * handler) :=
-  [(1, mkH 1 1 (HSync [ARemove 2])); (2, mkH 2 1 (HSync []))].
-Definition removed_env : list (list action) := [[APostQ 1 false; APostQ 2 false]].
+  [(1, mkH 1 1 [] None None (HSync [ARemove 2])); (2, mkH 2 1 [] None None (HSync []))].
+Definition removed_env : list (list action) := [[APostQ 1 false []; APostQ 2 false []]].
 
 Lemma removed_handlers_callback_lost_refuted_l :
   stuck_post true (env_run true default_fuel removed_env (init_state removed_regs)) 1 = true.
